@@ -256,7 +256,8 @@ def _work(prop_id, tier, base_seed, start, count, digest_below, source):
                 result, error = execute_isolated(prop, candidate)
                 if error is not None or result.violation is None:
                     acc["errors"].append("violation %s at batch %s[%d..] position %d reproduces neither alone nor with "
-                                         "the batch prefix as process history" % (item["raw"], source, start, item["position"]))
+                                         "the batch prefix as process history; detail: %s" % (
+                                             item["raw"], source, start, item["position"], item["violation"].get("detail", "")[:900]))
                     continue
                 scenario, violation = candidate, result.violation
             else:
